@@ -1,7 +1,7 @@
 import LicenseExpr.Lemmas.Tiles
 import LicenseExpr.Lemmas.BLits
 import LicenseExpr.Lemmas.Lex
-import LicenseExpr.Model.Api
+import LicenseExpr.Model.Spec
 /-!
 # C01 — parsing never drops, duplicates or alters any word of the input
 
@@ -36,8 +36,6 @@ theorem C01_default_partial (c : Cls) (strict : Bool) (ps : List Piece) (raw mer
     (h0 : Tiles ps raw) (h2 : mergeUnknown c none raw = .ok merged)
     (h3 : groupWith c strict merged = .ok grouped) : Tiles ps grouped :=
   groupWith_tiles c strict merged _ grouped ((mergeUnknown_tiles c none raw _ merged h0 h2).1 rfl) h3
-
-def ptokAtom (p : PTok) : Option Atom := match p.t with | .sym a => some a | _ => none
 
 theorem tokLits_ptoks (toks : List PTok) : BP.tokLits (toks.map (·.t)) = toks.filterMap ptokAtom := by
   induction toks with
